@@ -42,6 +42,26 @@ def _run_variant(args) -> dict:
     res = {'name': v['name'], 'kind': v['kind'], 'prop': prop, 'status': '?', 'detail': ''}
     tmp = None
     try:
+        if 'patch' in v or v.get('rename_all'):
+            import subprocess
+            import warnings
+            if v.get('rename_all'):
+                from .rename_test import rename_everything
+                tmp, _n = rename_everything(root)
+            else:
+                tmp = _copy_tree(root)
+                p = subprocess.run(['patch', '-p1', '-s', '-f', '-i', v['patch']], cwd=tmp, capture_output=True, text=True)
+                if p.returncode != 0:
+                    res['status'] = 'not-applicable'
+                    res['detail'] = 'the stored patch no longer applies to the current tree'
+                    return res
+            from .check import analyse
+            with warnings.catch_warnings():
+                warnings.simplefilter('ignore')
+                rep = analyse(prop, tmp)
+            res['findings'] = _finding_keys(rep)
+            res['errors'] = list(rep.errors)
+            return res
         path = os.path.join(root, 'src', 'peptacular', v['file'])
         if not os.path.exists(path):
             res['status'] = 'not-applicable'
@@ -81,10 +101,38 @@ def _run_variant(args) -> dict:
     return res
 
 
+SEEDED = os.path.join(os.path.dirname(os.path.dirname(os.path.abspath(__file__))), 'seeded')
+
+
+def seed_variants(prop: str) -> List[dict]:
+    """the independently seeded changes kept under /verif/seeded that this property's check reports (per
+    seeded/index.json, written by tools/seed_index.py) are replayed as kill variants; plus one behaviour-preserving
+    variant in which the locals of every function of the package are renamed"""
+    import json
+    out = [{'name': 'rename-all-locals', 'kind': 'preserve', 'rename_all': True, 'file': '(whole package)', 'old': '',
+            'new': '', 'why': 'locals of every function renamed', 'props': [prop]}]
+    idx_path = os.path.join(SEEDED, 'index.json')
+    if not os.path.exists(idx_path):
+        return out
+    index = json.load(open(idx_path))
+    for sid, ent in sorted(index.items()):
+        if prop in ent.get('violations', []):
+            why = ''
+            try:
+                why = json.load(open(os.path.join(SEEDED, sid, 'meta.json'))).get('summary', '')
+            except Exception:
+                pass
+            out.append({'name': f'seed:{sid}', 'kind': 'kill', 'patch': os.path.join(SEEDED, sid, 'patch.diff'),
+                        'file': f'seeded/{sid}/patch.diff', 'old': '', 'new': '', 'expect': '', 'props': [prop],
+                        'why': (why or 'independently seeded change')[:160]})
+    return out
+
+
 def run(prop: str, rep, root: Optional[str] = None, jobs: int = 16):
     from .variants import VARIANTS
     root = root or repo_root()
     mine = [v for v in VARIANTS if prop in v['props']]
+    mine = mine + seed_variants(prop)
     if not mine:
         rep.note(f'self-test: no variants registered for {prop}')
         return
